@@ -78,13 +78,15 @@ def plan_for(prop, tier, seed):
         for e in _edge_bw(seed, 24 if q else 96):
             P.add(e, "T1")
         if q:
-            # one evicting multi-block build, edges only (T1 on 1536 slots: ~20 s)
+            # evicting multi-block builds, edges only (T1 on 1536 slots: ~20 s)
             P.add(bw("evict3", nfb=1, suffix="_n1"), "T1")
+            P.add(bw("fanx", nfb=2, suffix="_n2"), "T1")
         if not q:
             for n in ("blk_1_1", "blk_2_1", "blk_2_2", "find_reset", "hard_lm"):
                 P.add(bw(n), *fams)
             P.add(bw("evict3", nfb=1, suffix="_n1"), *fams)
             P.add(bw("evict3", suffix="_n16"), *fams)
+            P.add(bw("fanx", nfb=2, suffix="_n2"), *fams)
             rng = random.Random(seed * 31 + 7)
             P.add(Entry("bw_big_st", "bytewise", "standard", corpus.gen_bw_big(rng), nfb=2), *fams)
         # char-wise standard automata
@@ -252,6 +254,7 @@ def plan_for(prop, tier, seed):
         fams = ("T1", "T5") if q else ("T1", "T2", "T34", "T6")
         for n in vals:
             P.add(bw("evict3", nfb=n, suffix="_n%d" % n), *fams)
+            P.add(bw("fanx", nfb=n, suffix="_n%d" % n), *fams)
         rng = random.Random(seed * 31 + 7)
         big = corpus.gen_bw_big(rng)
         for n in ((1, 16) if q else vals):
@@ -319,6 +322,9 @@ def plan_for(prop, tier, seed):
     else:
         print("property %s is not claimed (see MANIFEST.json not_applicable)" % prop)
         raise SystemExit(2)
+    if not q:
+        # thorough: the inductive iterator harnesses also over 8-slot tables
+        P.hand += [h + "_n8" for h in P.hand if h.startswith(("i_bw::", "i_cw::"))]
     return P
 
 
